@@ -35,6 +35,14 @@ var commonAssumptions = []string{
 // All lists the claimed properties.
 var All = []*Prop{
 	{
+		ID:    "C13",
+		Rules: []*core.Rule{rules.ExportCycle},
+		Explanation: "Clause decided: 'exporting a script-built object graph preserves sharing and cycles within one export' and, as its safety half, 'no export recursion aborts the host'. R-EXPORTCYCLE enumerates every implementation of objectImpl.export / exportToMap / exportToArrayOrSlice (and the generic helpers); each one that contains a recursion point into the object's own contents (exportValue, X.self.export, toReflectValue) must (a) for the untyped variant look its own object up with ctx.get and recurse only on the miss edge, (b) register its own object with ctx.put/putTyped on every path before each recursion point (dominance); typed variants must only be invoked on the miss edge of ctx.getTyped. Pure pass-through to another object's implementation is recognised as delegation.",
+		Technique:  "get/put-before-recursion dominance over SSA for every implementation of the export interface methods",
+		DesignRef:  "DESIGN.md section 4, C13",
+		NotCovered: "round-trip identity ToValue/Export, ExportTo deep equality, live-view aliasing of wrapped structs/maps/slices and their element wrapper caches, the bookkeeping inside objectExportCtx.put/putTyped themselves: reflection-driven, value- and history-level",
+	},
+	{
 		ID:    "C03",
 		Rules: []*core.Rule{rules.TryPair, rules.Boundary, rules.CtxFields},
 		Explanation: "goja unwinds by Go panics; handleThrow stops at the first tryPanicMarker frame for payloads it does not convert and trusts the frame's owner to pop it. " +
